@@ -409,6 +409,52 @@ def obligations_of(results, units_filter, kinds_filter=None):
     return sorted(set(obl))
 
 
+def trusted_fn_hashes():
+    """Token-stream hashes of the /repo functions listed in contracts/trusted_repo_fns.json (current text)."""
+    import hashlib
+    import extract
+    import rustlex
+    out = {}
+    try:
+        cfg = load_json(os.path.join(VERIF, 'contracts', 'trusted_repo_fns.json'))
+    except Exception:
+        return out
+    for e in cfg.get('entries', []):
+        try:
+            src = extract.read_repo(e['file'])
+        except Exception:
+            src = None
+        for fn in e['fns']:
+            key = e['file'] + '::' + fn
+            try:
+                st, _ob, cb = extract.find_fn(src, fn)
+                toks = ' '.join(t[0] for t in rustlex.tokens(src[st:cb + 1]))
+                out[key] = hashlib.sha256(toks.encode()).hexdigest()[:16]
+            except Exception:
+                out[key] = 'missing'
+    return out
+
+
+def changed_trusted_units(units):
+    """Units (of this property) whose contract rests on an in-repo function that is left uninterpreted and
+    whose text differs from the unchanged tree: [(unit, 'file::fn')]."""
+    try:
+        cfg = load_json(os.path.join(VERIF, 'contracts', 'trusted_repo_fns.json'))
+        base = load_json(os.path.join(VERIF, 'contracts', 'trusted_repo_hashes.json'))
+    except Exception:
+        return []
+    cur = trusted_fn_hashes()
+    out = []
+    for e in cfg.get('entries', []):
+        for fn in e['fns']:
+            key = e['file'] + '::' + fn
+            if key in base and cur.get(key) != base[key]:
+                for u in e['units']:
+                    if u in units:
+                        out.append((u, key))
+    return out
+
+
 def check(prop, tier):
     t0 = time.time()
     seed = int(os.environ.get('VERIF_SEED', '0') or 0)
@@ -543,6 +589,33 @@ def check(prop, tier):
         if exit_code == 2:
             for r in undecided:
                 lines_out.append('UNDECIDED property=%s group=%s reason=%s' % (prop, r['group'], r['undecided']))
+
+    if exit_code == 0 and use_cex and not safety_only:
+        # an in-repo function that the contracts leave uninterpreted (e.g. the winnow tag grammar) has changed:
+        # no obligation can see inside it, so the bounded harness of the units resting on it decides
+        ch = changed_trusted_units(units)
+        if ch:
+            try:
+                import cexsearch
+                tb = cexsearch.run_units(sorted(set(u for u, _k in ch)), timeout=3000)
+            except Exception as e:
+                tb = {}
+            for u, b in sorted(tb.items()):
+                bounded_runs[u] = b
+                fns = ', '.join(sorted(set(k for uu, k in ch if cexsearch.harness_for(uu, cexsearch.load_map())[0] == u or uu == u)))
+                if b.get('status') == 'cex':
+                    os.makedirs(REPLAYS, exist_ok=True)
+                    path = os.path.join(REPLAYS, '%s-%s.bounded.json' % (prop, re.sub(r'[^A-Za-z0-9_.-]', '_', u)))
+                    with open(path, 'w') as fh:
+                        json.dump({'property': prop, 'obligation': u + '.bounded',
+                                   'kind': 'bounded stand-in: the text of an in-repo function that the contracts treat as uninterpreted has changed (%s); the harness of the unit resting on it found a failing input' % fns,
+                                   'failing_input': b['detail'], 'bound': b['harness'].get('bound'),
+                                   'oracle': b['harness'].get('oracle'), 'how_to_replay': b.get('cmd')}, fh, indent=1)
+                    replay_paths.append((path, b['detail']))
+                    lines_out.append('VIOLATION property=%s replay=%s obligation=%s.bounded (bounded stand-in; uninterpreted in-repo function changed: %s)' % (prop, path, u, fns))
+                    exit_code = 1
+                else:
+                    lines_out.append('BOUNDED-ONLY property=%s unit=%s: uninterpreted in-repo function changed (%s); bounded stand-in %s' % (prop, u, fns, b.get('status')))
 
     if tier == 'thorough' and exit_code == 0 and use_cex and not safety_only:
         # Thorough: additionally run the bounded harness of every unit of the property against the real
